@@ -244,6 +244,10 @@ def invalid_classes(ctx):
                     res = check_invalid(data, f'first length {ln} with maximum {mx}')
                     if res:
                         ctx.report(res[0], {'kind': 'firstlen', 'max': mx, 'ln': ln}, res[1])
+                    n += 1
+                    res = check_invalid(refvbs.block(data), f'first length {ln} with maximum {mx}, inside a 1014 block')
+                    if res:
+                        ctx.report(res[0] + ':blocked', {'kind': 'firstlen', 'max': mx, 'ln': ln, 'blocked': True}, res[1])
     finally:
         cfgmod.config['MAX_VBS_RECORD_LENGTH'] = saved
     # each single bit
@@ -263,8 +267,12 @@ def invalid_classes(ctx):
                 res = check_invalid(data, f'first bitmap uses unconfigured element {bit} (bit 1 {"set" if bit1 else "clear"})')
                 if res:
                     ctx.report(res[0] + ':bit', {'kind': 'bit', 'bit': bit, 'bit1': bit1}, res[1])
+                n += 1
+                res = check_invalid(refvbs.block(data), f'first bitmap uses unconfigured element {bit} (bit 1 {"set" if bit1 else "clear"}), inside a 1014 block')
+                if res:
+                    ctx.report(res[0] + ':bit:blocked', {'kind': 'bit', 'bit': bit, 'bit1': bit1, 'blocked': True}, res[1])
     ctx.bulk(n, nontrivial_distinct=n, label='invalid-classes')
-    ctx.enumerated('every truncation length 0..23 (invalid) and 24 (valid); first length max-1/max/max+1/2^31/2^32-1 under three maxima; each single bit 2..128')
+    ctx.enumerated('every truncation length 0..23 (invalid) and 24 (valid); first length max-1/max/max+1/2^31/2^32-1 under three maxima; each single bit 2..128; the length and bit classes also inside a 1014 block')
     ctx.sample({'invalid_class': 'first bitmap uses element 128 (no configuration)', 'expected': 'isValidIPM false with a reason'})
 
 
@@ -321,6 +329,9 @@ def replay(case):
             if case['ln'] <= case['max']:
                 info = inspect(data)
                 return None if info.get('isValidIPM') is True else ('max-length-reported-invalid', str(info))
+            if case.get('blocked'):
+                res = check_invalid(refvbs.block(data), 'replayed first length, inside a 1014 block')
+                return (res[0] + ':blocked', res[1]) if res else None
             return check_invalid(data, 'replayed first length')
         finally:
             cfgmod.config['MAX_VBS_RECORD_LENGTH'] = saved
@@ -331,6 +342,9 @@ def replay(case):
         if str(bit) in PACKAGED:
             info = inspect(data)
             return None if info.get('isValidIPM') is True else ('configured-bit-reported-invalid', str(info))
+        if case.get('blocked'):
+            res = check_invalid(refvbs.block(data), f'unconfigured element {bit}, inside a 1014 block')
+            return (res[0] + ':bit:blocked', res[1]) if res else None
         res = check_invalid(data, f'unconfigured element {bit}')
         return (res[0] + ':bit', res[1]) if res else None
     raise harness.HarnessError('unknown replay kind')
